@@ -2,6 +2,7 @@ SPECIFICATION Spec
 CONSTANTS
   Threads = {1, 2, 3}
   VarOf <- SameVar3
+  LockOf <- SameVar3
   Chunks <- Ch3
   SharedHandle = FALSE
   UseLock = TRUE
